@@ -327,12 +327,16 @@ def run_property(ctx: Ctx, pid: str, design_cfgs: list[str]) -> Outcome:
     out = Outcome()
     rng = random.Random(ctx.seed * 7919 + int(pid[1:]))
     t0 = time.time()
-    # 1. design models (Engine.tla = plan + unit phases; Stateful.tla = stateful phase)
+    # 1. design models (Engine.tla = plan + unit phases; Stateful.tla = stateful phase) and, as a vacuity guard, the designs of the
+    #    code before each repair (a Fix* flag switched off), which TLC must refute. All TLC jobs run side by side.
     states = transitions = 0
     design = []
-    for cfg in design_cfgs:
-        module = "Stateful" if cfg.startswith("Stateful") else "Engine"
-        res = tlc.require_ok(tlc.run_tlc(module, cfg, timeout=3000, coverage=False), "design model " + cfg)
+    mod = lambda cfg: "Stateful" if cfg.startswith("Stateful") else "Engine"
+    jobs = [{"module": mod(cfg), "cfg": cfg, "timeout": 3000, "workers": 4} for cfg in design_cfgs] + \
+           [{"module": mod(cfg), "cfg": cfg, "timeout": 900, "workers": 2} for cfg, _ in OLD_DESIGNS]
+    results = tlc.run_many(jobs, parallel=6)
+    for cfg, res in zip(design_cfgs, results[:len(design_cfgs)]):
+        tlc.require_ok(res, "design model " + cfg)
         states += res.distinct
         transitions += res.generated
         design.append({"cfg": cfg, "distinct": res.distinct, "generated": res.generated, "violated": res.violated, "wall_s": round(res.wall_s, 1)})
@@ -340,11 +344,9 @@ def run_property(ctx: Ctx, pid: str, design_cfgs: list[str]) -> Outcome:
             out.violations.append(Violation("%s:design:%s:%s" % (pid, cfg, inv),
                                             "design model %s violates %s" % (cfg, inv),
                                             {"kind": "design", "cfg": cfg, "invariant": inv, "trace": res.counterexample[:120]}))
-    # vacuity guard: with a Fix* flag switched off (the design of the code before its repair) TLC must find the violation
     refuted = []
-    for cfg, inv in OLD_DESIGNS:
-        module = "Stateful" if cfg.startswith("Stateful") else "Engine"
-        res = tlc.require_ok(tlc.run_tlc(module, cfg, timeout=900), "old design " + cfg)
+    for (cfg, inv), res in zip(OLD_DESIGNS, results[len(design_cfgs):]):
+        tlc.require_ok(res, "old design " + cfg)
         if not res.violated:   # which invariant TLC reports first depends on worker scheduling; any of them refutes the design
             raise tlc.TLCFailure("%s: expected %s to be violated by the old design - the specification lost its teeth" % (cfg, inv))
         refuted.append(cfg)
